@@ -456,6 +456,11 @@ func ruleC10(r *Report) {
 	safely(r, func() { checkDigestAdvertised(r, p, "C10.digest") })
 	safely(r, func() { checkUnprefixedPaths(r, p, "C10.digest") })
 	safely(r, func() { checkAEADPlain(r, p, sc, "C10.aead-plain") })
+	// what an algorithm value produces depends on its arguments only: no cache or other package-level state the library
+	// writes at run time on the encrypt/decrypt paths (a key schedule remembered under the key bytes is the schedule of
+	// whichever algorithm used those bytes first)
+	r.Rule("C10.stateless", "the Encrypt and Decrypt methods of the package's algorithm types, with the helpers they are split into, read no package-level variable that these paths themselves write", 3)
+	safely(r, func() { checkCipherStateless(r, p, "C10.stateless") })
 }
 
 // checkAEADPlain: in the function under xmlenc.Decrypt that calls AEAD.Open, every value returned as plaintext is the
@@ -1193,4 +1198,40 @@ func checkUnprefixedPaths(r *Report, p *Prog, rule string) {
 		}
 	}
 	r.Check(n >= 4 && bad == "", rule, "received elements are searched by local name (no namespace prefix in an etree path)", "-", fmt.Sprintf("%d constant lookup paths in package xmlenc, none with a prefix", n), "a lookup path names a namespace prefix ("+bad+"): etree compares it with the prefix text the sender happened to use, so the same element bound through a default namespace or another prefix is not found")
+}
+
+// checkCipherStateless: every Encrypt/Decrypt method of a type of package xmlenc.
+func checkCipherStateless(r *Report, p *Prog, rule string) {
+	for _, fn := range p.modFns {
+		if !p.InLibrary(fn) || fn.Pkg == nil || fn.Pkg.Pkg.Path() != xmlencPath || fn.Signature.Recv() == nil {
+			continue
+		}
+		if fn.Name() != "Encrypt" && fn.Name() != "Decrypt" {
+			continue
+		}
+		r.Fn(p.FnName(fn))
+		// (the registries - written by the exported Register* functions and the initialiser, never on an encrypt/decrypt
+		// path - are configuration; state is what these paths themselves write)
+		region := helperRegion(p, fn, 3)
+		written := globalsWrittenBy(p, region)
+		cons := p.FnName(fn) + ": the result depends on the arguments only (no package-level state written on this path)"
+		bad := ""
+		for _, f := range region {
+			for _, b := range f.Blocks {
+				for _, in := range b.Instrs {
+					for _, op := range in.Operands(nil) {
+						if op == nil || *op == nil {
+							continue
+						}
+						if g, ok := (*op).(*ssa.Global); ok {
+							if at, isW := written[g]; isW {
+								bad = firstNonEmpty(bad, fmt.Sprintf("%s uses the package-level variable %s, which this path itself writes (%s)", p.FnName(f), g.Name(), at))
+							}
+						}
+					}
+				}
+			}
+		}
+		r.Check(bad == "", rule, cons, p.Pos(fn.Pos()), "no package-level variable is both read and written on this path", bad+": what one algorithm value remembered is handed to another (two algorithms that share a key length produce each other's ciphertext under their own identifier)")
+	}
 }
